@@ -109,6 +109,7 @@ fn exec_ff(cx: &mut Ctx, c: &FfCase) {
     let pre_len = if id.fam == Fam::Skein { (c.k + 1) * bs } else { c.k * bs };
     let pre = r.bytes(pre_len);
     let tail = r.bytes(c.tail);
+    let post = r.bytes((c.seed >> 8) as usize % (2 * bs + 2));
     let sigp = format!("{}|{}|{}", cx.prop, id.name(), api::profile());
     let mut m = RefH::new(&id);
     m.update(&pre);
@@ -124,10 +125,26 @@ fn exec_ff(cx: &mut Ctx, c: &FfCase) {
         let mid = h.counter();
         h.update(&tail[cut..]);
         let end = h.counter();
-        (mid, end, h.finalize_box())
+        // two cases in three go on using the instance: the counter words must all be back to
+        // "nothing absorbed" after finalize_reset() / reset(), also the ones beyond the first
+        match c.seed % 3 {
+            0 => (mid, end, h.finalize_box(), None),
+            k => {
+                let dig = if k == 1 {
+                    h.finalize_reset()
+                } else {
+                    let d = h.box_clone().finalize_box();
+                    h.reset();
+                    d
+                };
+                let c0 = h.counter();
+                h.update(&post);
+                (mid, end, dig, Some((c0, h.finalize_box())))
+            }
+        }
     });
     cx.log.eval(1);
-    let (_mid, end, dig) = match res {
+    let (_mid, end, dig, reused) = match res {
         Ok(x) => x,
         Err(p) => {
             cx.log.panic_violation(&format!("{}|fast-forward", sigp), &p);
@@ -141,6 +158,17 @@ fn exec_ff(cx: &mut Ctx, c: &FfCase) {
     let ed = m.finalize();
     if dig != ed {
         cx.log.violation(&format!("{}|digest-after-boundary", sigp), &format!("counter set to {:#x}, tail {} bytes: digest {} reference {}", c.c, c.tail, hex(&dig), hex(&ed)));
+    }
+    if let Some((c0, got)) = reused {
+        cx.log.eval(1);
+        cx.log.event("instances_reused_after_a_long_message", 1);
+        if c0 != 0 {
+            cx.log.violation(&format!("{}|counter-after-reset", sigp), &format!("after a message that took the counter to {:#x} the instance was reset: the hook reads {:#x}, not 0", end, c0));
+        }
+        let e = id.reference(&post);
+        if got != e {
+            cx.log.violation(&format!("{}|digest-after-long-message-and-reset", sigp), &format!("instance reset after its counter had reached {:#x}: digest of the next message ({} bytes) is {} reference {}", end, post.len(), hex(&got), hex(&e)));
+        }
     }
 }
 
@@ -281,6 +309,125 @@ fn exec_stream(cx: &mut Ctx, c: &StreamCase) {
     }
 }
 
+// ---------------------------------------------------------------- (c) one huge update call
+
+/// One `update()` call whose slice is longer than 2^32 bytes (a file read or mapped whole): the
+/// per-call length arithmetic must not truncate either. Oracles: the hooked counter after the
+/// call, the digest of the same bytes fed in pieces, and (where the model is fast) the reference.
+pub struct HugeCase {
+    id: HashId,
+    total: u64,
+    chunked: bool,
+    refd: bool,
+}
+impl HugeCase {
+    fn desc(&self) -> String {
+        format!("k=huge h={} total={} chunked={} ref={}", self.id.name(), self.total, self.chunked as u8, self.refd as u8)
+    }
+}
+
+#[cfg(miri)]
+fn exec_huge(_cx: &mut Ctx, _c: &HugeCase) {}
+
+#[cfg(not(miri))]
+fn exec_huge(cx: &mut Ctx, c: &HugeCase) {
+    let id = c.id;
+    let sigp = format!("C17|{}|{}", id.name(), api::profile());
+    let pattern: Vec<u8> = (0..(2usize << 20)).map(|i| (i as u32).wrapping_mul(2654435761).rotate_right(9) as u8 ^ (i >> 13) as u8).collect();
+    let win = match crate::guard::RingWindow::new(&pattern, c.total as usize) {
+        Ok(w) => w,
+        Err(e) => {
+            cx.log.note("inconclusive", &format!("could not build a {}-byte window for {}: {}", c.total, c.desc(), e));
+            eprintln!("INCONCLUSIVE could not build a {}-byte window: {}", c.total, e);
+            std::process::exit(3);
+        }
+    };
+    let data = win.slice();
+    let res = guarded(|| {
+        let mut h = id.new();
+        h.update(data);
+        let ctr = h.counter();
+        (h.finalize_box(), ctr)
+    });
+    let (dig, ctr) = match res {
+        Ok(x) => x,
+        Err(p) => {
+            cx.log.panic_violation(&format!("{}|huge-update", sigp), &p);
+            return;
+        }
+    };
+    cx.log.eval(1);
+    cx.log.event("bytes_in_single_update_calls", c.total);
+    cx.log.event(&format!("single-call/{}", id.name()), c.total);
+    let exp = expected_counter(&id, c.total as u128);
+    if ctr != exp {
+        cx.log.violation(&format!("{}|counter-after-huge-update", sigp), &format!("after one update() of {} bytes the hooked counter is {:#x}, the format defines {:#x}", c.total, ctr, exp));
+    }
+    if c.chunked {
+        let piece = (64usize << 20) + 13;
+        let res = guarded(|| {
+            let mut h = id.new();
+            let mut bad: Option<(u64, u128, u128)> = None;
+            let mut at = 0usize;
+            while at < data.len() {
+                let n = piece.min(data.len() - at);
+                h.update(&data[at..at + n]);
+                at += n;
+                let (g, e) = (h.counter(), expected_counter(&id, at as u128));
+                if g != e && bad.is_none() {
+                    bad = Some((at as u64, g, e));
+                }
+            }
+            (h.finalize_box(), bad)
+        });
+        cx.log.eval(1);
+        match res {
+            Ok((d2, bad)) => {
+                if let Some((at, g, e)) = bad {
+                    cx.log.violation(&format!("{}|counter-conservation", sigp), &format!("after really absorbing {} bytes the hooked counter is {:#x}, the format defines {:#x}", at, g, e));
+                }
+                if d2 != dig {
+                    cx.log.violation(&format!("{}|huge-update-digest-differs-from-pieces", sigp), &format!("{} bytes in one update(): {}; the same bytes in 64 MiB pieces: {}", c.total, hex(&dig), hex(&d2)));
+                }
+            }
+            Err(p) => cx.log.panic_violation(&format!("{}|huge-update-pieces", sigp), &p),
+        }
+    }
+    if c.refd {
+        let mut m = RefH::new(&id);
+        for ch in data.chunks(16 << 20) {
+            m.update(ch);
+        }
+        let e = m.finalize();
+        cx.log.eval(1);
+        cx.log.event("huge_updates_with_digest_verified", 1);
+        if dig != e {
+            cx.log.violation(&format!("{}|huge-update-digest", sigp), &format!("digest of {} bytes absorbed by one update() is {} reference {}", c.total, hex(&dig), hex(&e)));
+        }
+    }
+}
+
+fn huge_menu(thorough: bool) -> Vec<HugeCase> {
+    let g4 = 1u64 << 32;
+    let mut v = vec![
+        HugeCase { id: h(Fam::Groestl, 256), total: g4 + 100, chunked: true, refd: false },
+        HugeCase { id: h(Fam::Blake, 512), total: g4 + 129, chunked: false, refd: thorough },
+        HugeCase { id: h(Fam::Jh, 256), total: g4 + 65, chunked: thorough, refd: false },
+        HugeCase { id: h(Fam::Skein, 512), total: g4 + 64, chunked: false, refd: thorough },
+    ];
+    if thorough {
+        for (fam, bitss) in [(Fam::Blake, [224u32, 256, 384, 0]), (Fam::Groestl, [224, 384, 512, 0]), (Fam::Jh, [224, 384, 512, 0]), (Fam::Skein, [256, 1024, 0, 0])] {
+            for (k, &bits) in bitss.iter().filter(|&&b| b != 0).enumerate() {
+                let total = [g4, g4 + 4097, 2 * g4 + 3 * 64 + 1][k % 3];
+                let fast_ref = matches!(fam, Fam::Blake | Fam::Skein);
+                v.push(HugeCase { id: h(fam, bits), total, chunked: true, refd: fast_ref && k == 0 });
+            }
+        }
+        v.push(HugeCase { id: h(Fam::Groestl, 256), total: 2 * g4 + 64, chunked: true, refd: false });
+    }
+    v
+}
+
 fn h(fam: Fam, bits: u32) -> HashId {
     HashId { fam, bits, out: if fam == Fam::Skein { 64 } else { bits as usize / 8 } }
 }
@@ -331,6 +478,16 @@ pub fn run(cx: &mut Ctx) {
             cx.log.class(&format!("stream/{}/{}", sc.id.name(), if sc.check_digest { "digest-verified" } else { "conservation-only" }));
             exec_stream(cx, &sc);
         }
+        // the huge single calls go to the shards from the far end, so that they run beside the streams
+        for (i, hc) in huge_menu(cx.thorough).into_iter().enumerate() {
+            if (cx.nshards - 1 - (i as u64 % cx.nshards)) != cx.shard {
+                continue;
+            }
+            cx.log.announce(&hc.desc());
+            cx.log.nontrivial();
+            cx.log.class(&format!("single-update-over-4GiB/{}", hc.id.name()));
+            exec_huge(cx, &hc);
+        }
     }
     run_ff(cx, cx.budget);
 }
@@ -341,6 +498,10 @@ pub fn replay(cx: &mut Ctx, desc: &str) {
         let c = FfCase { id: HashId::parse(d.str("h")), k: d.u64("pre") as usize, c: d.u128("c"), tail: d.u64("tail") as usize, seed: d.u64("seed") };
         cx.log.announce(&c.desc());
         exec_ff(cx, &c);
+    } else if d.str("k") == "huge" {
+        let c = HugeCase { id: HashId::parse(d.str("h")), total: d.u64("total"), chunked: d.u64("chunked") == 1, refd: d.u64("ref") == 1 };
+        cx.log.announce(&c.desc());
+        exec_huge(cx, &c);
     } else {
         let c = StreamCase { id: HashId::parse(d.str("h")), total: d.u64("total"), piece: d.u64("piece") as usize, check_digest: d.u64("digest") == 1 };
         cx.log.announce(&c.desc());
